@@ -253,6 +253,7 @@ SHARED = {
     "C16": [("c01", "r01_11_trusted_packings")],
     "C09": [("c01", "r01_11_trusted_packings")],
     "C11": [("c03", "r03_11_trusted_instants")],
+    "C15": [("c03", "r03_11_trusted_instants")],
     "C07": [("c08", "r08_7_embedded_fields"), ("c17", "r17_8_variable_precision_predicates"), ("c08", "r08_10_field_set_tests")],
 }
 
